@@ -503,8 +503,10 @@ class World:
         if "T2" in self.open and self.pending_spawner(pool):
             raise Excluded("T2")
 
-    def t3_guard(self, pool):
-        if "T3" not in self.open:
+    def t3_guard(self, pool, ret_exc=False):
+        """T3: gather_and_close(return_exceptions=False) while a spawner that was cancelled before its first
+        step is still remembered: the first gather ends at once with a suppressed CancelledError."""
+        if "T3" not in self.open or ret_exc:
             return
         for t in pool._meta_tasks_cancelled:
             if t.cancelled() or (not t.done() and unstarted(t)):
@@ -556,7 +558,7 @@ class World:
 
     def do_gather(self, pool, ret_exc):
         self.t2_guard(pool)
-        self.t3_guard(pool)
+        self.t3_guard(pool, ret_exc)
         return self.spawn(pool.gather_and_close(return_exceptions=ret_exc))
 
 
